@@ -1,6 +1,7 @@
 """Module for creating a GIF or a video of the schedule being built."""
 
 import os
+import re
 import pathlib
 import shutil
 from typing import Sequence, Protocol
@@ -411,9 +412,16 @@ def resize_image_to_macro_block(
     return image
 
 
+def _frame_sort_key(file_name: str) -> tuple[int, str]:
+    """Sorts the frames by their number: ``frame_100.png`` must go after
+    ``frame_11.png``, which is not the case in lexicographic order."""
+    match = re.search(r"\d+", file_name)
+    return (int(match.group()) if match else -1, file_name)
+
+
 def _load_images(frames_dir: str) -> list:
     frames = [
         os.path.join(frames_dir, frame)
-        for frame in sorted(os.listdir(frames_dir))
+        for frame in sorted(os.listdir(frames_dir), key=_frame_sort_key)
     ]
     return [imageio.imread(frame) for frame in frames]
